@@ -6,6 +6,7 @@ set -u
 SRC="$1"; PROP="$2"; shift 2
 CHECKS="${*:-$PROP}"
 export GOFLAGS=-mod=mod GOPROXY=off
+export TMPDIR=/tmp/seedtmp.$$; mkdir -p $TMPDIR
 WT=/tmp/seedcheck.$$
 git -C /repo worktree add --detach "$WT" HEAD -q || exit 2
 cleanup() { git -C /repo worktree remove --force "$WT" 2>/dev/null; git -C /repo checkout -- . 2>/dev/null; }
@@ -46,5 +47,5 @@ for c in $CHECKS; do
   echo "check $c: exit=$rc violations_lines=$nv :: $(echo "$out" | grep -m1 -A1 '^VIOLATION' | tail -1 | cut -c1-400)"
 done
 git -C /repo checkout -- .
-rm -rf /tmp/seedroot.$$
+rm -rf /tmp/seedroot.$$ $TMPDIR
 echo "SUMMARY clean_demo=$c0 suite_with_change=$s1 demo_with_change=$c1"
